@@ -398,6 +398,9 @@ def main():
         dict(kind="new", be=False, objs=[["b", 4], ["a", 4]], interleaved=False, nchunks=3)])
     for spec in (d3, d3s, d13):
         run_file(ctx, spec, rng, "witness_files", vol)
+    # files of more than 100 segments whose channels' segment structures diverge only after the first 100
+    for it in range(run.pick(2, 12)):
+        run_file(ctx, G.gen_many_spec(rng), rng, "many_segment_files", vol)
     nfiles = run.pick(100, 1500)
     for it in range(nfiles):
         spec = G.gen_spec(rng, big=False, small=(it % 3 != 2))
